@@ -104,7 +104,7 @@ func xmlUnmarshalElement(el *etree.Element, obj interface{}) error {
 }
 
 func (sp *SAMLServiceProvider) getDecryptCert() (*tls.Certificate, error) {
-	if sp.SPKeyStore == nil {
+	if sp.spKeyStoreOverride == nil && sp.SPKeyStore == nil {
 		return nil, fmt.Errorf("no decryption certs available")
 	}
 
@@ -112,6 +112,8 @@ func (sp *SAMLServiceProvider) getDecryptCert() (*tls.Certificate, error) {
 	var decryptCert tls.Certificate
 
 	switch crt := sp.SPKeyStore.(type) {
+	case nil:
+		// Only reachable when the key was set via SetSPKeyStore (handled below).
 	case dsig.TLSCertKeyStore:
 		// Get the tls.Certificate directly if possible
 		decryptCert = tls.Certificate(crt)
@@ -127,6 +129,14 @@ func (sp *SAMLServiceProvider) getDecryptCert() (*tls.Certificate, error) {
 		decryptCert = tls.Certificate{
 			Certificate: [][]byte{cert},
 			PrivateKey:  pk,
+		}
+	}
+
+	if ks := sp.spKeyStoreOverride; ks != nil {
+		// A key set via SetSPKeyStore takes precedence over the deprecated field.
+		decryptCert = tls.Certificate{
+			Certificate: [][]byte{ks.Cert},
+			PrivateKey:  ks.Signer,
 		}
 	}
 
